@@ -96,7 +96,7 @@ namespace cds { namespace urcu {
         //@cond
         signal_buffered( size_t nBufferCapacity, int nSignal = SIGUSR1 )
             : base_class( nSignal )
-            , m_Buffer( nBufferCapacity )
+            , m_Buffer( nBufferCapacity < 2 ? 2 : nBufferCapacity )   // the cyclic queue needs at least two cells
             , m_nCurEpoch(0)
             , m_nCapacity( nBufferCapacity )
         {}
